@@ -50,11 +50,18 @@ CFG = dict(
     trusted_base=[HARNESS_TB, EXTRACT_TB,
                   "Go's select-with-default semantics (send case taken iff a receiver is ready) and unbuffered-channel rendezvous as "
                   "written in Model/Progress.v; sum() modelled as one atomic label because pw.size is private to the writing goroutine",
-                  "a call that has not returned 1 s after the wrapped writer was released counts as blocked"],
+                  "a call that has not returned 1 s after the wrapped writer was released counts as blocked; a call counts as stalled "
+                  "when, with nobody receiving, the median latency (gate release -> return, 200 calls, three rounds) exceeds 300 us + 20 x "
+                  "the median with a waiting consumer (unchanged code: about 6 us for both); the harness has a wall budget (quick 90 s)"],
     assumptions=["one writer goroutine (Write/WriteString/Close are not called concurrently, Size() is read by the writing goroutine)",
                  "Close is called once, after the last write; a consumer is receiving when Close is called (documented contract, "
                  "theorem C19_close_needs_receiver)",
-                 "one consumer at a time receives from Status()"],
+                 "one consumer at a time receives from Status()",
+                 "the values Write/WriteString RETURN (n, err handed through from the wrapped writer) are outside the property text: "
+                 "the harness only counts deviations (input_distribution.return_value_not_passed_through), it never alarms on them",
+                 "a zero-length call that is answered without asking the wrapped writer is accepted (it contributes 0 either way); "
+                 "the case line then carries 'reported 0, no error' for it; a non-empty call that does not reach the wrapped writer "
+                 "is a violation"],
     sig=c19_sig,
 )
 CFG["manifest"] = dict(
